@@ -6,7 +6,7 @@ import json, os, subprocess
 VERIF = os.path.dirname(os.path.dirname(os.path.abspath(__file__)))
 
 COMMON_NOTE = ("Trusted: Verus+Z3; the contract vocabulary (prelude.rs) incl. recorder/`delivered` witnesses that rest on "
-               "linearity and parametricity of generic by-value observers; extraction rules R1-R13 (syntactic, counted in "
+               "linearity and parametricity of generic by-value observers; extraction rules R1-R17 (syntactic, counted in "
                "evidence); one-handle stand-in for MutRc/MutArc with a ghost cell identity (simultaneous access through two handles "
                "and the dynamic borrow/lock acquisition are not modelled: thread interleavings are NOT covered, re-entrancy only "
                "through the re-entry-discipline assertions, the borrow / free probes (lock scope decided by the borrow checker on the stand-ins, guard scopes of `if let` scrutinees modelled by R13) and the Kani lock-scope obligations); closures total and "
@@ -141,12 +141,21 @@ CLAIMS = {
             "the Ready outcome of Remote::poll (store of the result: CBMC does not finish) is TRUSTED; the schedule() async block "
             "is decided under the sequential reading of rule R12 (Verus: the delay's timer is awaited before the task, the "
             "future is handed to the spawner); executor behaviour is assumed."),
+    "C20": ("Verus on the real text of src/ops/group_by.rs, for every pre-state (any number of groups, any key function as an "
+            "uninterpreted relation, any item): GroupByObserver::next — an item of a known key is appended to the group of its key "
+            "and nothing is announced; the first item of a key announces ONE group with that key (a handle on a fresh subject that "
+            "has seen nothing, i.e. announced before the item is forwarded), the item becomes that group's first item; every other "
+            "group is left exactly as it was (frame clause) and the key set grows by exactly that key; error / complete hand the "
+            "terminal to every announced group (drain: every pair exactly once) and to the stream of groups; is_finished; "
+            "KeyObservable::actual_subscribe joins exactly the announced subject; GroupByOp::actual_subscribe (both macro "
+            "instantiations) starts from an empty map of groups with the operator's key function.", "§4 C20",
+            "the group subjects are abstract (`Subject: Clone + Default + Observer`, as in the real impl header; the real subjects are "
+            "under contract under C06); assumed std contracts: HashMap entry().or_insert_with() (rule R17: the closure body becomes "
+            "straight-line code), drain() yields every pair exactly once, Hash/Eq of the key obey vstd's key model; 'flattening the "
+            "groups reproduces the source' is the per-call clauses folded over the history (no mechanised lemma); the MutRef subjects."),
 }
 
 NOT_APPLICABLE = {
-    "C20": "group_by's observer is HashMap::entry().or_insert_with(closure borrowing a field) + drain() loops over per-group "
-           "Subjects: outside Verus (closure capturing self, entry API, drain iterator), and the bounded Kani stand-in "
-           "(2 items, u8 keys; notes/not-feasible/kani_group_by.rs.txt) did not finish within 300 s of CBMC; no contract within reach",
     "C10": "all-interleavings safety/liveness of Arc<Mutex> code: Kani has no threads and Verus would need its permission-token "
            "cells, i.e. a rewrite of MutArc into a model; no contract within reach (DESIGN.md §5)",
 }
